@@ -12,10 +12,12 @@ What is proved, for every input and every parameter choice:
   (incl. termination of the label loop), `nh_detector_total`: only ValueError escapes from the per-line functions;
   the `parts[1]` IndexError of `_parse_timestamp` is unreachable (`int(parts[0])` raises first when there is no dot);
 * `group_for_sample_guarded`: the three `del d[...]` KeyError sites are guarded by the label checks of the main loop;
-* `om_parser_total_partial`: the composition over the line/family fold, under hypotheses that exclude exactly the
+* `om_parser_total_partial`: the whole parser (`omParse`, i.e. tokenisation of every line and the line/family fold
+  with `build_metric` and `_check_histogram`), under the hypothesis `OutsideFindings` that excludes exactly the
   finding classes.
 -/
 import PromVerif.Lemmas.OMTotal
+import PromVerif.Lemmas.OMFold4
 import PromVerif.Lemmas.OMToy
 
 namespace PromVerif.Props.C14OM
@@ -114,5 +116,74 @@ theorem witness_overflowError : errOf (parseDoc "# TYPE a counter\na_total 10000
 example : isOkDoc "# TYPE a histogram\na {count:1,sum:1,schema:1,zero_threshold:1,zero_count:1}\n# EOF\n" = true := by decide
 example : isOkDoc "a 1 1.5\na 1 2.5\n# EOF\n" = true := by decide
 example : isOkDoc "# TYPE a counter\na_total 999999\n# EOF\n" = true := by decide
+
+/-! ## the whole parser -/
+
+/-- the detector takes the line for a native histogram (`_parse_nh_sample` goes on to `_parse_nh_struct`) -/
+def nhShaped (line : Str) : Bool :=
+  match nhDetect line with
+  | .ok (some _) => true
+  | _ => false
+
+/-- the line, read as a plain sample, has no integer value beyond the range of `float` and a timestamp of the form
+`stamps` says (`true`: `Timestamp`, i.e. int or `sec.frac`; `false`: float spelling) — or none, or does not parse -/
+def sampleFine (P : Params) (stamps : Bool) (line : Str) : Bool :=
+  match parseSample P line with
+  | .error _ => true
+  | .ok s =>
+    (match s.value with
+     | some (.int n) => !P.intTooBig n
+     | _ => true) &&
+    (match s.ts with
+     | none => true
+     | some (.stamp _ _) => stamps
+     | some (.flt _) => !stamps)
+
+/-- a document outside the confirmed finding classes: no native-histogram-shaped line (F9 KeyError / TypeError and
+the three `None` attribute sites), sample timestamps of one form (F9 AttributeError in `Timestamp.__gt__/__lt__`),
+no integer value too large for a float (OverflowError in `math.isnan`) -/
+def OutsideFindings (P : Params) (stamps : Bool) (text : Str) : Bool :=
+  (docLines text).all (fun line => !nhShaped line && sampleFine P stamps line)
+
+/-
+Full statement (false on the unchanged tree, see the witnesses):
+  ∀ P text, omParse P text = .ok _ ∨ omParse P text = .error .valueError
+-/
+/-- **the OpenMetrics parser is total outside the finding classes**: for every input string and every choice of the
+number parameters and regex classes, the model returns families or ValueError — no other class, no `timeout`
+(the label loop, the scanners and the fold terminate within their fuel).  `_partial`: the hypothesis
+`OutsideFindings` excludes exactly the classes the witness theorems exhibit; nothing else is assumed. -/
+theorem om_parser_total_partial (P : Params) (stamps : Bool) (text : Str) (h : OutsideFindings P stamps text = true) :
+    ∀ e, omParse P text = .error e → e = .valueError := by
+  unfold OutsideFindings at h
+  rw [List.all_eq_true] at h
+  apply omParse_safe P stamps text
+  · intro line hl p hp
+    have := (h line hl)
+    simp only [Bool.and_eq_true, Bool.not_eq_true', nhShaped, hp] at this
+    exact absurd this.1 (by simp)
+  · intro line hl s hs
+    have := (h line hl)
+    simp only [Bool.and_eq_true, sampleFine, hs] at this
+    obtain ⟨_, h1, h2⟩ := this
+    constructor
+    · intro n hn
+      rw [hn] at h1
+      simpa using h1
+    · cases hts : s.ts with
+      | none => trivial
+      | some t =>
+        rw [hts] at h2
+        cases t with
+        | stamp a b => exact h2
+        | flt b => simpa [TsClass] using h2
+
+/-- the hypothesis is satisfiable by documents of every kind (and fails on the witnesses) -/
+example : OutsideFindings toyP true cs!"# TYPE a histogram\na_bucket{le=\"1\"} 1 5\na_bucket{le=\"+Inf\"} 2 5\n# TYPE b counter\nb_total 3 # {t=\"x\"} 1 7\n# EOF\n" = true := by decide
+example : OutsideFindings toyP false cs!"a 1 2e0\na 2 3e0\n# EOF\n" = true := by decide
+example : OutsideFindings toyP true cs!"a 1 1.5\na 1 2e0\n# EOF\n" = false := by decide
+example : OutsideFindings toyP false cs!"a 1 1.5\na 1 2e0\n# EOF\n" = false := by decide
+example : OutsideFindings toyP true cs!"# TYPE a histogram\na {foo:1}\n# EOF\n" = false := by decide
+example : OutsideFindings toyP true cs!"# TYPE a counter\na_total 1000000\n# EOF\n" = false := by decide
 
 end PromVerif.Props.C14OM
